@@ -667,14 +667,18 @@ class CallMixin:
         defs = []
         if getattr(c, "defines", None) and c.entry_assume:
             cur_defs = set(getattr(self.current, "defines", ()) or ())
-            if set(c.defines) <= cur_defs and not self.symbols_fresh(c, pre):
-                # the caller introduced the same symbols itself: the callee's definitions are proof obligations
-                for i, e in enumerate(c.entry_assume):
-                    self.emit("pre@call", f"{c.key}#def{i + 1}", n, pre, self.spec(e, pre, env=env, old=pre, isolate=True),
-                              note=e if isinstance(e, str) else "")
-            else:
-                self.check_fresh_symbols(c, pre, n)
-                defs = [self.spec(e, pre, env=env, old=pre, isolate=True) for e in c.entry_assume]
+            used = self.symbols_in_pc(set(c.defines), pre)
+            if used and not set(c.defines) <= cur_defs:
+                raise Unsupported(f"{c.key} defines {sorted(used)}, which the caller already constrains "
+                                  f"(a second definition would not be conservative)", n)
+            for i, e in enumerate(c.entry_assume):
+                z = self.spec(e, pre, env=env, old=pre, isolate=True)
+                mine = self.symbols_of(z, set(c.defines))
+                if mine & used:
+                    # the caller constrained a symbol of this definition itself: the definition is a proof obligation
+                    self.emit("pre@call", f"{c.key}#def{i + 1}", n, pre, z, note=e if isinstance(e, str) else "")
+                else:
+                    defs.append(z)         # its symbols are fresh on this path: a conservative extension
         normal = post.assume(*(defs + ens))
         # 4. exceptional returns
         for ename, spec in c.raises.items():
@@ -709,6 +713,33 @@ class CallMixin:
                 st = self.write_back(node, st, nv, sink)
                 newvals[m] = nv
         return st, newvals
+
+    @staticmethod
+    def symbols_of(z, names):
+        out, seen, todo = set(), set(), [z]
+        while todo:
+            e = todo.pop()
+            if e.get_id() in seen:
+                continue
+            seen.add(e.get_id())
+            if z3.is_quantifier(e):
+                todo.append(e.body())
+            elif z3.is_app(e):
+                if e.decl().name() in names:
+                    out.add(e.decl().name())
+                todo.extend(e.children())
+        return out
+
+    def symbols_in_pc(self, names, st):
+        out = set()
+        for f in st.pc:
+            out |= self.symbols_of(f, names)
+        return out
+
+    def check_symbols_unconstrained(self, names, st, n):
+        used = self.symbols_in_pc(set(names), st)
+        if used:
+            raise Unsupported(f"definitional assumption on {sorted(used)}, which this path already constrains", n)
 
     def symbols_fresh(self, c, st):
         try:
